@@ -912,3 +912,26 @@ package app
 //@   ensures C20.swept [C20]: true
 //@ func (*app.Timings).SetIfZero
 //@   requires known [safety]: has(t.m, tt) && t.m[tt] != nil
+// ---- C20: establishment of the structural invariants by the initialisers Run executes first -------------------------------
+//@ define appCoreOK(app *App) = app.config != nil && app.logger != nil && app.t != nil && timingsOK(app.t) && app.switchHelper != nil && app.replRepairState != nil && app.slaveReadPositions != nil && app.externalReplication != nil && app.offlineModeFilter != nil && repairInv(app)
+//@ func app.NewTimings
+//@   ensures C20.timings [C20]: result != nil && timingsOK(result)
+//@ func app.NewApp
+//@   ensures C20.app_core [C20]: result1 == nil ==> result0 != nil && appCoreOK(result0)
+//@ func (*app.App).connectDCS
+//@   requires core [safety]: app != nil && app.config != nil && app.logger != nil
+//@   ensures C20.dcs_ready [C20]: result == nil ==> app.dcs != nil && app.appDCS != nil
+//@ func (*app.App).newDBCluster
+//@   requires core [safety]: app != nil && app.config != nil && app.logger != nil && app.dcs != nil
+//@   ensures C20.cluster_ready [C20]: result == nil ==> app.cluster != nil && clusterOK(app.cluster)
+//@ func app.NewAppDCS
+//@   ensures C20.nonnil [C20]: result != nil
+//@ func app.NewOfflineModeFilter
+//@   ensures C20.nonnil [C20]: result != nil
+// ---- C20: the sequential skeleton of getNodeStatesInParallel (its callers use the assumed higher-order model of
+// /verif/govc/parmodels.go; what that model takes from the body and can be checked without channel semantics is checked
+// here: a failed getter makes the whole call fail with a nil map, and no state is stored under a nil pointer) -----------
+//@ func app.getNodeStatesInParallel
+//@   flags nosweep
+//@   assert_at return#* C20.par_err_reported [C20]: err != nil ==> result1 != nil
+//@   assert_at return#* C20.par_err_nil_map [C20]: result1 != nil ==> result0 == nil
